@@ -92,7 +92,15 @@ def only_expansions(before, paths):
         carried_above = any(("default" in a or "example" in a) for a in ancestors)
         last = chain[-1][0] if chain else ""
         own = ("default" in found or "example" in found) and last in ("items", "additionalProperties", "additionalItems")
-        if not (carried_above or own):
+        # the last step into X goes through a pointer or a slice element (items, additionalProperties, additionalItems, not,
+        # allOf[i] / anyOf[i] / oneOf[i] / items[i]): a map entry (properties.name, patternProperties.name, dependencies.name)
+        # is copied before its validator is built, and the copy is what gets expanded
+        segs = [seg for seg, n in chain]          # chain ends at X
+        last = segs[-1] if segs else ""
+        prev = segs[-2] if len(segs) >= 2 else ""
+        by_pointer = last in ("items", "additionalProperties", "additionalItems", "not") and prev not in ("properties", "patternProperties", "dependencies", "definitions") \
+            or (last.isdigit() and prev in ("allOf", "anyOf", "oneOf", "items"))
+        if not ((carried_above or own) and by_pointer):
             return False
     return True
 
@@ -108,6 +116,37 @@ def doc_cases(chk):
         d = sg.spec()
         V.decorate(d, rng, density=rng.choice([0.2, 0.5]), bad_share=rng.choice([0.0, 0.0, 0.1]))
         cases.append({"doc": d, "origin": "grammar + shaped schemas + defaults and examples"})
+    # definitions whose default / example reaches $ref nodes through every kind of edge (map entries: properties,
+    # patternProperties; pointers and slices: items, additionalProperties, allOf members), valid values
+    for i in range(10 if chk.tier == "quick" else 80):
+        leaf = {"type": "object", "properties": {"id": {"type": "integer"}}}
+        ref = {"$ref": "#/definitions/Leaf"}
+        props, value, holder = {}, {}, {"type": "object"}
+        edges = [e for e in ("prop", "nested", "items", "addl", "pattern", "allof") if rng.random() < 0.55] or ["prop"]
+        if "prop" in edges:
+            props["tag"] = dict(ref)
+            value["tag"] = {"id": rng.randint(0, 9)}
+        if "nested" in edges:
+            props["outer"] = {"type": "object", "properties": {"inner": dict(ref)}}
+            value["outer"] = {"inner": {"id": 1}}
+        if "items" in edges:
+            props["arr"] = {"type": "array", "items": dict(ref)}
+            value["arr"] = [{"id": 2}, {"id": 3}]
+        if "addl" in edges:
+            props["m"] = {"type": "object", "additionalProperties": dict(ref)}
+            value["m"] = {"k": {"id": 4}}
+        if "pattern" in edges:
+            holder["patternProperties"] = {"^x-": dict(ref)}
+            value["x-a"] = {"id": 5}
+        if "allof" in edges:
+            holder["allOf"] = [dict(ref)]
+            value["id"] = 6
+        holder["properties"] = props
+        holder[rng.choice(["default", "example"])] = value
+        doc = {"swagger": "2.0", "info": {"title": "t", "version": "1"},
+               "paths": {"/p": {"get": {"operationId": "o", "responses": {"200": {"description": "ok", "schema": {"$ref": "#/definitions/Holder"}}}}}},
+               "definitions": {"Holder": holder, "Leaf": leaf}}
+        cases.append({"doc": doc, "origin": "a definition whose default / example reaches $ref nodes through " + ", ".join(edges)})
     for i, c in enumerate(cases):
         c["id"] = i
     return cases
